@@ -70,16 +70,29 @@ def do_read(d, m):
 
 
 def run_history(ops):
-  """ops: [('x', i) | ('y', j) | ('r', member)]. Returns flags (read == fresh read) and details."""
+  """ops: [('x', i) | ('y', j) | ('r', member) | ('buffer',)]. Returns flags (read == fresh read) and details.
+  After a ('buffer',) marker (not an operation on the object) the caller passes every float control series through ONE
+  array of its own per length, refilled in place before each assignment."""
+  import numpy as np
   from matched_markets.methodology import tbrmmdiagnostics as D, tbrmmdesignparameters as P
   xs, ys = series()
+  buffers, use_buffer = {}, False
   par = P.TBRMMDesignParameters(n_test=5, iroas=1.0)
   d = D.TBRMMDiagnostics(ys[0], par)
   cx, cy = 0, 0
   flags, notes = [], []
   for k, op in enumerate(ops):
+    if op[0] == 'buffer':
+      use_buffer = True
+      continue
     if op[0] == 'x':
-      d.x = xs[op[1]]
+      v = xs[op[1]]
+      if use_buffer and isinstance(v, np.ndarray) and v.dtype == np.float64:
+        b = buffers.setdefault(len(v), np.zeros(len(v)))
+        b[:] = v
+        d.x = b
+      else:
+        d.x = v
       cx = op[1]
     elif op[0] == 'y':
       d.y = ys[op[1]]
@@ -107,6 +120,8 @@ def run_history(ops):
 def encode(ops, flags):
   t = []
   for op in ops:
+    if op[0] == 'buffer':
+      continue
     if op[0] == 'x':
       t.append('SetX None' if op[1] == 0 else 'SetX (Some %d)' % op[1])
     elif op[0] == 'y':
@@ -156,6 +171,11 @@ def run(tier):
       for m in READS:
         hist.append([('x', a), ('r', m), ('x', b), ('r', m)])
         hist.append([('x', a), ('x', b), ('r', m), ('x', a), ('r', m)])
+  # the caller keeps one array and refills it in place before each assignment of a control series
+  for a, b in ((1, 2), (2, 3), (3, 1), (1, 4)):
+    for m in READS:
+      hist.append([('buffer',), ('x', a), ('r', m), ('x', b), ('r', m)])
+      hist.append([('buffer',), ('x', a), ('r', m), ('y', 1), ('x', b), ('r', m), ('x', a), ('r', m)])
   # the treatment series is replaced by one of another length (with control series of that length)
   for m in READS:
     hist.append([('x', 1), ('r', m), ('y', 2), ('x', 7), ('r', m)])
@@ -165,6 +185,8 @@ def run(tier):
     n = rng.randint(4, 14)
     h = [rng.choice(wide) if rng.random() < 0.55 else ('r', rng.choice(READS)) for _ in range(n)]
     h.append(('r', rng.choice(READS)))
+    if rng.random() < 0.25:
+      h = [('buffer',)] + h
     hist.append(h)
   res = common.pmap(_one, hist, chunksize=200)
   terms, nreads = [], 0
@@ -173,7 +195,7 @@ def run(tier):
       ck.tie_broken('harness', 'harness error', notes[0])
       continue
     nreads += len(flags)
-    nset = sum(1 for o in h if o[0] != 'r')
+    nset = sum(1 for o in h if o[0] in ('x', 'y'))
     ck.count(tuple(h), nontrivial=nset >= 1 and len(flags) >= 1)
     if notes:
       ck.fail('stale-read', notes[0], {'history': h})
@@ -198,7 +220,7 @@ def run(tier):
                   {'history': hist[sorted(bad)[0]]})
   ck.cov['rule'] = ('alphabet: 4 control series incl. None (random and scripted histories also use 6 more: one within 1e-7 relative of another, two on a 2e6 baseline differing by a few units, three of whole numbers held in integer arrays / a list of ints), 2 treatment series (plus a shorter one in scripted length-change histories), 10 members read (corr, required_impact, pretestfit, '
                     'aatest, bbtest, dwtest, corr_test, tests_ok, tbrfit(xt, yt), estimate_required_impact(rho)); every history of '
-                    'length <= %d ending in a read (exhaustive), the set/read/set/read pattern for every pair of members, and random '
+                    'length <= %d ending in a read (exhaustive), the set/read/set/read pattern for every pair of members, scripted histories in which the caller refills one array in place before each assignment, and random '
                     'histories of length 5-15. non-trivial: at least one assignment and one read; distinct: the history' % maxlen)
   ck.cov['exhaustive_part'] = '%d histories (all of length <= %d ending in a read)' % (n_exh, maxlen)
   ck.cov['reads_compared_with_fresh_object'] = nreads
